@@ -23,6 +23,10 @@ def arr(spec, complex_=True, positive=False):
     rs = np.random.RandomState(spec["np_seed"])
     shape = tuple(spec["shape"])
     if positive:
+        if spec.get("dtype") == "int":
+            return rs.randint(1, 4, size=shape)                      # e.g. np.ones((K, K), dtype=int): "no path loss between the users"
+        if spec.get("dtype") == "float32":
+            return (rs.uniform(1e-4, 2.0, size=shape) * spec.get("scale", 1.0)).astype(np.float32)
         return rs.uniform(1e-4, 2.0, size=shape) * spec.get("scale", 1.0)
     if complex_:
         return (rs.randn(*shape) + 1j * rs.randn(*shape)) * spec.get("scale", 1.0)
@@ -103,8 +107,12 @@ def gen_plan(rng, tier, idx, opts):
                 ops.append({"op": "set_pathloss", "pl": None})
             else:
                 o = {"op": "set_pathloss", "pl": {"shape": [K, K], "np_seed": s(), "scale": rng.choice([1.0, 1e-3, 1e-6])}}
+                if rng.random() < 0.2:
+                    o["pl"]["dtype"] = rng.choice(["int", "float32"])   # the two matrices need not have the same dtype
                 if ext:
                     o["ext"] = {"shape": [K, extK], "np_seed": s(), "scale": rng.choice([1.0, 1e-3])}
+                    if rng.random() < 0.1:
+                        o["ext"]["dtype"] = rng.choice(["int", "float32"])
                 ops.append(o)
         elif r < 0.42:
             ops.append({"op": "noise_var", "v": rng.choice([None, 0.0, 1e-3, 0.5, 2.0])})
@@ -265,12 +273,19 @@ def execute(plan):
                         K = op["K"]
                         m.pl_valid = False          # until the next set_pathloss
                         bump(res["probes"], "number_of_users_changed")
+                    sd_ = op["seed"] if kind == "randomize" else op["M"]["np_seed"]
+                    # documented: "NtE : int | list[int] | np.ndarray"
+                    nte_arg = NtE
+                    if ext and len(NtE) == 1 and sd_ % 2 == 0:
+                        nte_arg = int(NtE[0])
+                    elif ext and sd_ % 3 == 0:
+                        nte_arg = [int(x) for x in NtE]
                     if kind == "randomize":
                         ch.set_channel_seed(op["seed"])
                         same = len(set(op["Nr"])) == 1 and len(set(op["Nt"])) == 1 and op["seed"] % 2 == 0
                         a_r, a_t = (int(op["Nr"][0]), int(op["Nt"][0])) if same else (Nr, Nt)      # equal antennas may be given as plain ints
                         if ext:
-                            ch.randomize(a_r, a_t, K, NtE)
+                            ch.randomize(a_r, a_t, K, nte_arg)
                         else:
                             ch.randomize(a_r, a_t, K)
                         m.raw = model_randn_c(op["seed"], int(Nr.sum()), int(Nt.sum() + NtE.sum()))
@@ -283,7 +298,7 @@ def execute(plan):
                             M = np.array(prev)
                             bump(res["probes"], "reinit_from_same_ndarray_other_partition")
                         if ext:
-                            ch.init_from_channel_matrix(handed, Nr, Nt, K, NtE)
+                            ch.init_from_channel_matrix(handed, Nr, Nt, K, nte_arg)
                         else:
                             ch.init_from_channel_matrix(handed, Nr, Nt, K)
                         m.raw = M
